@@ -52,7 +52,7 @@ package handler
 //@ func (msgServer).CloseLease
 //@   requires msg != nil && wired(ms)
 //@   modifies ghost KVhas, ghost KVval, ghost G, ghost Bank, ghost Mod, ghost It_all, ghost EvN, ghost EvLog, ghost PayCloseReq
-//@   uses keepsClosedTrans, keepsClosedRefl, orderBidDisjoint, orderLeaseDisjoint, bidLeaseDisjoint
+//@   uses keepsClosedTrans, keepsClosedRefl, keepsClosedHas, keepsClosedWF, keepsClosedOrder, keepsClosedBid, keepsClosedLease, keepsClosedCloseOrder, keepsClosedCloseBid, keepsClosedCloseLease, orderBidDisjoint, orderLeaseDisjoint, bidLeaseDisjoint
 //@   ensures [guards] result1 == nil ==>
 //@        old(KVhas)[mskey(ms)][orderKeyOf(asOrder(msg.LeaseID))] && ordOf(old(KVval)[mskey(ms)], asOrder(msg.LeaseID)).State == types.OrderActive
 //@        && old(KVhas)[mskey(ms)][bidKeyOf(asBid(msg.LeaseID))] && bidOf(old(KVval)[mskey(ms)], asBid(msg.LeaseID)).State == types.BidActive
@@ -72,9 +72,6 @@ package handler
 //@ spec asGroup(id: types.LeaseID): dtypes.GroupID
 //@ axiom asGroupDef: forall id: types.LeaseID :: asGroup(id).Owner == id.Owner && asGroup(id).DSeq == id.DSeq && asGroup(id).GSeq == id.GSeq
 //@   trigger asGroup(id)
-//@ spec leaseDep(id: types.LeaseID): dtypes.DeploymentID
-//@ axiom leaseDepDef: forall id: types.LeaseID :: leaseDep(id).Owner == id.Owner && leaseDep(id).DSeq == id.DSeq
-//@   trigger leaseDep(id)
 
 // ---- CloseBid ---------------------------------------------------------------------------------
 // An open bid is simply closed; a matched bid is closed together with its active lease and its order, the group
@@ -82,7 +79,7 @@ package handler
 //@ func (msgServer).CloseBid
 //@   requires msg != nil && wired(ms)
 //@   modifies ghost KVhas, ghost KVval, ghost G, ghost Bank, ghost Mod, ghost It_all, ghost EvN, ghost EvLog, ghost PayCloseReq
-//@   uses keepsClosedTrans, keepsClosedRefl, orderBidDisjoint, orderLeaseDisjoint, bidLeaseDisjoint
+//@   uses keepsClosedTrans, keepsClosedRefl, keepsClosedHas, keepsClosedWF, keepsClosedOrder, keepsClosedBid, keepsClosedLease, keepsClosedCloseOrder, keepsClosedCloseBid, keepsClosedCloseLease, orderBidDisjoint, orderLeaseDisjoint, bidLeaseDisjoint
 //@   ensures [guards] result1 == nil ==> old(KVhas)[mskey(ms)][bidKeyOf(msg.BidID)] && old(KVhas)[mskey(ms)][orderKeyOf(bidOrder(msg.BidID))]
 //@        && (bidOf(old(KVval)[mskey(ms)], msg.BidID).State == types.BidOpen
 //@            || (bidOf(old(KVval)[mskey(ms)], msg.BidID).State == types.BidActive && old(KVhas)[mskey(ms)][leaseKeyOf(asLease(msg.BidID))]
@@ -131,4 +128,45 @@ package handler
 //@   loop 1 invariant forall j: int :: 0 <= j && j < len(lostbids) ==> lostbids[j].State == types.BidOpen && lostbids[j].BidID != msg.BidID
 //@   oncall keeper.(IKeeper).OnBidLost 1 assert bid.State == types.BidOpen && bid.BidID != msg.BidID
 
+// ---- CreateBid (C08) ----------------------------------------------------------------------------
+// A bid is accepted only for an open order, from a registered provider, at a valid price not above the order's
+// maximum, with at least the minimum deposit, and only if the provider's own and audited attributes cover what
+// the order requires.  Provider registry and audit store are read through their keepers (assumed, A-READ).
+//@ spec provRegistered(ctx: sdk.Context, addr: str): bool
+//@ spec provRecord(ctx: sdk.Context, addr: str): ptypes.Provider
+//@ extern handler.(ProviderKeeper).Get(recv, ctx, id)
+//@   pure
+//@   requires typeis(id, sdk.AccAddress)
+//@   ensures result1 <==> provRegistered(ctx, unbox(id, sdk.AccAddress))
+//@   ensures result1 ==> result0 == provRecord(ctx, unbox(id, sdk.AccAddress))
+// audited attributes: one record per auditor
+//@ extern handler.(AuditKeeper).GetProviderAttributes(recv, ctx, id)
+//@   fresh
+//@   ensures forall k1: int, k2: int :: 0 <= k1 && k1 < k2 && k2 < len(result0) ==> result0[k1].Auditor != result0[k2].Auditor
+//@ ghost BidReqOK: bool
+//@ func (msgServer).CreateBid
+//@   requires msg != nil && wired(ms)
+//@   modifies ghost KVhas, ghost KVval, ghost G, ghost Bank, ghost Mod, ghost It_all, ghost EvN, ghost EvLog, ghost BidReqOK
+//@   ensures [open] result1 == nil ==> old(KVhas)[mskey(ms)][orderKeyOf(msg.Order)] && ordOf(old(KVval)[mskey(ms)], msg.Order).State == types.OrderOpen
+//@   ensures [deposit] result1 == nil ==> msg.Deposit.Denom == mktParams(sdkctx(goCtx)).BidMinDeposit.Denom && msg.Deposit.Amount >= mktParams(sdkctx(goCtx)).BidMinDeposit.Amount
+//@   ensures [price] result1 == nil ==> validDenom(msg.Price.Denom) && msg.Price.Amount >= 0
+//@        && msg.Price.Amount <= groupPrice(ordOf(old(KVval)[mskey(ms)], msg.Order).Spec).Amount
+//@   ensures [registered] result1 == nil ==> validBech32(msg.Provider) && provRegistered(sdkctx(goCtx), unbech32(msg.Provider))
+//@   ensures [match] result1 == nil ==> BidReqOK
+//@   oncall types.(Order).MatchRequirements 1 ghost BidReqOK := callresult
+//@   oncall types.(Order).MatchRequirements 1 assert order == ordOf(old(KVval)[mskey(ms)], msg.Order) && len(provAttr) >= 1
+//@        && provAttr[0].Owner == msg.Provider && provAttr[0].Attributes == provRecord(sdkctx(goCtx), unbech32(msg.Provider)).Attributes
+//@   oncall keeper.(IKeeper).CreateBid 1 assert callresult1 == nil ==> callresult0.BidID.Provider == bech32(unbech32(msg.Provider)) && callresult0.Price == msg.Price
+//@        && callresult0.BidID.Owner == msg.Order.Owner && callresult0.BidID.DSeq == msg.Order.DSeq && callresult0.BidID.GSeq == msg.Order.GSeq && callresult0.BidID.OSeq == msg.Order.OSeq
+
+// ---- WithdrawLease --------------------------------------------------------------------------------
+//@ func (msgServer).WithdrawLease
+//@   requires msg != nil && wired(ms)
+//@   modifies ghost KVhas, ghost KVval, ghost G, ghost Bank, ghost Mod, ghost It_all, ghost EvN, ghost EvLog
+//@   ensures [lease] result1 == nil ==> old(KVhas)[mskey(ms)][leaseKeyOf(msg.LeaseID)]
+//@   uses keepsClosedRefl, keepsClosedTrans
+//@   ensures [keeps] keepsClosed(old(KVhas)[mskey(ms)], old(KVval)[mskey(ms)], KVhas[mskey(ms)], KVval[mskey(ms)])
+
+//@ property C08 := (msgServer).CreateBid#*
+//@ property C04 := (msgServer).CreateBid#*, (msgServer).WithdrawLease#*
 //@ property C04 := (msgServer).CloseLease#*, (msgServer).CloseBid#*, (msgServer).CreateLease#*, (msgServer).CreateLease$1#*
